@@ -279,3 +279,331 @@ def glue_part2(T: Types, reg: Registry, C: dict):
                 conf_of(T, c.arg("invocation"), "running_concurrency") == CC("DISABLED"), z3.Not(blocked_by_some(c, c.arg("statuses"))))),
         ])], properties=["C06"], effect_events=False)
     T.blocked_by_some = blocked_by_some
+    glue_part3(T, reg, C, base_req, all_fields)
+
+
+# =========================================================================== part 3: claiming work
+def queued_are_registered(T, rec, bag):
+    i = z3.Const(fresh_name("qr"), ID.sort())
+    return z3.ForAll([i], z3.Implies(z3.Select(bag, i) > 0, known(T, rec, i)))
+
+
+def claimed_by_this_call(eng, st, inv_id_term, ctx_term, T):
+    """C02 yield-time obligation: this activation's own PENDING request for the id returned normally."""
+    for e in reversed([e for e in st.events if isinstance(e, dict) and e.get("ev") == "call"]):
+        if e["key"].endswith("BaseOrchestrator.set_invocation_status") and e["case"] == "accepted":
+            a = e["args"]
+            return z3.And(a["invocation_id"].term == inv_id_term, a["status"].term == T.S("PENDING"), a["runner_ctx"].term == ctx_term)
+    return z3.BoolVal(False)
+
+
+def glue_part3(T: Types, reg: Registry, C: dict, base_req, all_fields):
+    OSTR = Opt(RUNNER)
+    INVSET = SetT(T.Invocation)
+
+    def cc_pending_reroute(c, to_reroute):
+        return lambda i: z3.And(status_of(T, c.f(REC), i) == T.S("CONCURRENCY_CONTROLLED"), z3.Select(to_reroute, i))
+
+    def all_held(c, S):
+        x = z3.Const(fresh_name("hx"), ID.sort())
+        return z3.ForAll([x], z3.Implies(z3.Select(S, x), held_by(T, c.f(REC), x, c.arg("runner_ctx"))))
+
+    def yielded_held(c):
+        v = z3.Const(fresh_name("yv"), T.Invocation.sort())
+        return z3.ForAll([v], z3.Implies(z3.Select(c.out_set, v), held_by(T, c.f(REC), T.Invocation.get(v, "invocation_id"), c.arg("runner_ctx"))))
+
+    def reroute_only_cc(c, cur, old):
+        i = z3.Const(fresh_name("rc"), ID.sort())
+        return z3.ForAll([i], z3.Implies(z3.Select(cur, i), z3.Or(z3.Select(old, i), z3.And(
+            known(T, c.f(REC), i), status_of(T, c.f(REC), i) == T.S("CONCURRENCY_CONTROLLED")))))
+
+    world_req = base_req + [
+        ("registered-invocations-are-stored", lambda c: registered_are_stored(T, c.f(REC), c.f(STORED))),
+        ("queued-ids-are-registered", lambda c: queued_are_registered(T, c.f(REC), c.f(QUEUE))),
+    ]
+
+    # ------------------------------------------------------------------ get_additional_invocations_to_run
+    def gai_inv(c, to_reroute, blocking):
+        return [
+            ("C03:no-id-stranded-except-those-awaiting-this-call's-reroute", lambda c: Jall(T, c.f(REC), c.f(QUEUE), cc_pending_reroute(c, to_reroute(c)))),
+            ("domain-unchanged-and-stored", lambda c: z3.And(same_domain(T, c.f(REC), c.old(REC)), registered_are_stored(T, c.f(REC), c.f(STORED)),
+                                                             queued_are_registered(T, c.f(REC), c.f(QUEUE)))),
+            ("owners-ok-bag-nonneg", lambda c: z3.And(owners_ok(T, c.f(REC)), bag_nonneg(c.f(QUEUE)))),
+            ("blocking-ids-still-held-by-this-runner", lambda c: all_held(c, blocking(c))),
+            ("C02:yielded-invocations-are-PENDING-under-this-runner", yielded_held),
+            ("to-reroute-grows-only-by-CONCURRENCY_CONTROLLED-ids", lambda c: reroute_only_cc(c, to_reroute(c), c.arg("invocations_to_reroute"))),
+        ]
+    gai = Contract(
+        key=f"{BO}:BaseOrchestrator.get_additional_invocations_to_run", shape="Orchestrator",
+        params={"missing_invocations": INT, "blocking_invocation_ids": SID, "invocations_to_reroute": SID, "runner_ctx": T.RunnerCtx},
+        generator=T.Invocation, frame=all_fields + [QUEUE],
+        requires=world_req + [
+            ("C03-at-entry", lambda c: Jall(T, c.f(REC), c.f(QUEUE), cc_pending_reroute(c, c.arg("invocations_to_reroute")))),
+            ("blocking-ids-held-by-this-runner", lambda c: all_held(c, c.arg("blocking_invocation_ids"))),
+        ],
+        loops={0: LoopSpec(inv=[(n, f) for n, f in gai_inv(None, lambda c: c.v("invocations_to_reroute"), lambda c: c.v("blocking_invocation_ids"))] + [
+            ("budget", lambda c: z3.And(c.v("missing_invocations") == c.arg("missing_invocations") - c.out_count, c.out_count >= 0,
+                                        z3.Implies(c.arg("missing_invocations") > 0, c.v("missing_invocations") >= 0),
+                                        z3.Implies(c.arg("missing_invocations") <= 0, c.out_count == 0))),
+        ])},
+        cases=[Case("claimed", ensures=[(n, f) for n, f in gai_inv(None, lambda c: c.x("post:invocations_to_reroute"), lambda c: c.arg("blocking_invocation_ids"))] + [
+            ("at-most-the-missing-number", lambda c: c.out_count <= z3.If(c.arg("missing_invocations") > 0, c.arg("missing_invocations"), 0)),
+        ])],
+        properties=["C02", "C03", "C06"])
+    gai.mutable_params = ["invocations_to_reroute"]
+    gai.gen_distinct = False
+    gai.yield_hook = lambda eng, st, v: eng.oblige(
+        st, claimed_by_this_call(eng, st, T.Invocation.get(v.term, "invocation_id"), st.ghost["$args"]["runner_ctx"].term, T),
+        "C02:yield-only-after-own-successful-PENDING-request", "ensures")
+    gai.exit_splits = [("status_at_pop", lambda c: c.v("invocation_status") if c.has_local("invocation_status") else None, T.Status),
+                       ("reroute_option", lambda c: conf_of(T, c.v("invocation"), "reroute_on_concurrency_control") if c.has_local("invocation") else None, BOOL)]
+    C["get_additional_invocations_to_run"] = gai
+
+    # ------------------------------------------------------------------ get_blocking_invocations (inline) + get_blocking_invocations_to_run
+    reg.add(Contract(key=f"{BO}:BaseOrchestrator.get_blocking_invocations", shape="Orchestrator", params={"max_num_invocation_ids": INT},
+                     generator=ID, inline=True, note="inlined from its real AST"))
+
+    def waited_known(c):
+        i = z3.Const(fresh_name("wk"), ID.sort())
+        return z3.ForAll([i], z3.Implies(z3.Select(c.f(WAITED), i), known(T, c.f(REC), i)))
+    gbr_common = lambda blocking: [
+        ("C03:no-id-stranded", lambda c: Jall(T, c.f(REC), c.f(QUEUE))),
+        ("domain-unchanged-and-stored", lambda c: z3.And(same_domain(T, c.f(REC), c.old(REC)), registered_are_stored(T, c.f(REC), c.f(STORED)),
+                                                         queued_are_registered(T, c.f(REC), c.f(QUEUE)), c.f(QUEUE) == c.old(QUEUE))),
+        ("owners-ok", lambda c: owners_ok(T, c.f(REC))),
+        ("C02:blocking-ids-held-by-this-runner", lambda c: all_held(c, blocking(c))),
+        ("yielded-are-in-the-blocking-set", lambda c: ops.set_subset(c.out_set, blocking(c), ID.sort())),
+        ("wait-graph-untouched", lambda c: z3.And(c.f(WAITED) == c.old(WAITED), c.f(EDGES) == c.old(EDGES))),
+    ]
+    gbr = Contract(
+        key=f"{BO}:BaseOrchestrator.get_blocking_invocations_to_run", shape="Orchestrator",
+        params={"max_num_invocations": INT, "blocking_invocation_ids": SID, "runner_ctx": T.RunnerCtx},
+        generator=ID, frame=all_fields,
+        requires=world_req + [("C03-at-entry", lambda c: Jall(T, c.f(REC), c.f(QUEUE))), ("waited-ids-are-registered", waited_known),
+                              ("blocking-ids-held-by-this-runner", lambda c: all_held(c, c.arg("blocking_invocation_ids")))],
+        loops={0: LoopSpec(inv=gbr_common(lambda c: c.v("blocking_invocation_ids")) + [
+            ("at-most-one-per-candidate", lambda c: z3.And(c.out_count <= c.x("n_seen"), c.out_count >= 0)),
+        ])},
+        cases=[Case("claimed", ensures=gbr_common(lambda c: c.x("post:blocking_invocation_ids")) + [
+            ("at-most-the-limit", lambda c: c.out_count <= z3.If(c.arg("max_num_invocations") > 0, c.arg("max_num_invocations"), 0)),
+        ])],
+        properties=["C02", "C03", "C09"])
+    gbr.mutable_params = ["blocking_invocation_ids"]
+    gbr.yield_hook = lambda eng, st, v: eng.oblige(
+        st, claimed_by_this_call(eng, st, v.term, st.ghost["$args"]["runner_ctx"].term, T),
+        "C02:yield-only-after-own-successful-PENDING-request", "ensures")
+    C["get_blocking_invocations_to_run"] = gbr
+
+    # ------------------------------------------------------------------ get_invocations_to_run
+    gir = Contract(
+        key=f"{BO}:BaseOrchestrator.get_invocations_to_run", shape="Orchestrator",
+        params={"max_num_invocations": INT, "runner_ctx": T.RunnerCtx}, generator=T.Invocation, frame=all_fields + [QUEUE],
+        requires=world_req + [("C03-at-entry", lambda c: Jall(T, c.f(REC), c.f(QUEUE))), ("waited-ids-are-registered", waited_known)],
+        loops={0: LoopSpec(modifies=[], inv=[
+            ("yielded-so-far-are-in-the-blocking-set", lambda c: z3.ForAll([z3.Const("yv", T.Invocation.sort())], z3.Implies(
+                z3.Select(c.out_set, z3.Const("yv", T.Invocation.sort())),
+                z3.Select(c.v("blocking_invocation_ids"), T.Invocation.get(z3.Const("yv", T.Invocation.sort()), "invocation_id"))))),
+        ])},
+        cases=[Case("claimed", ensures=[
+            ("C03:no-id-stranded-at-exit", lambda c: Jall(T, c.f(REC), c.f(QUEUE))),
+            ("C02:every-yielded-invocation-is-PENDING-under-this-runner", yielded_held),
+        ])],
+        properties=["C02", "C03", "C09"])
+    gir.annotations = {"set[InvocationId]": SID}
+    C["get_invocations_to_run"] = gir
+    glue_part4(T, reg, C, world_req, all_fields)
+
+
+# =========================================================================== part 4: registration and routing
+def glue_part4(T: Types, reg: Registry, C: dict, world_req, all_fields):
+    from pyvc.values import NONE, OK, RAISE, ExcVal, Val, mk_fresh
+    world_req = [r for r in world_req if r[0] != "runner-context-has-an-id"]
+    OSTR, OKEYS = Opt(RUNNER), Opt(world.KEYS)
+    INVS, CALLS = SeqT(T.Invocation), SeqT(T.CallRec)
+    rec_t, hist_t, hist_get = MapT(ID, T.Record), T.hist_t, T.hist_get
+    CC = lambda m: T.CCType.const(m)
+    DI = "pynenc.invocation.dist_invocation"
+    T.fresh_inv = z3.Function("fresh_inv", T.CallRec.sort(), z3.IntSort(), z3.IntSort(), T.Invocation.sort())
+    nonce = [0]
+
+    # ---- natives ------------------------------------------------------------------------------------------------
+    def h_runner_ctx(eng, st, recv, args, kwargs):
+        v = mk_fresh(T.RunnerCtx, "ctx")
+        st.assume(z3.Length(T.RunnerCtx.get(v.term, "runner_id")) > 0)
+        return [(OK, st, v)]
+    reg.add(Contract(key="pynenc.context:get_or_create_runner_context", handler=h_runner_ctx, assumed=True,
+                     note="returns the runner context of the current process/thread: its runner_id is a non-empty string"))
+    reg.add(Contract(key="pynenc.context:get_dist_invocation_context", assumed=True,
+                     handler=lambda eng, st, recv, args, kwargs: [(OK, st, mk_fresh(Opt(T.Invocation), "parent"))]))
+
+    def h_from_parent(eng, st, recv, args, kwargs):
+        call = args[0] if args else kwargs["call"]
+        nonce[0] += 1
+        k = st.ghost.get("$lc_index", z3.IntVal(0))
+        inv = T.fresh_inv(call.term, z3.IntVal(nonce[0]), k)
+        i = T.Invocation.get(inv, "invocation_id")
+        st.assume(z3.And(T.Invocation.get(inv, "call") == call.term, T.Invocation.get(inv, "task") == T.CallRec.get(call.term, "task")))
+        # uuid4: the new id is fresh (not registered, not queued) and different from every other id created by this activation
+        a, b = z3.Const(fresh_name("fa"), T.CallRec.sort()), z3.Const(fresh_name("fb"), T.CallRec.sort())
+        n1, n2, k1, k2 = (z3.Int(fresh_name(x)) for x in ("n1", "n2", "k1", "k2"))
+        st.assume(z3.ForAll([a, b, n1, n2, k1, k2], z3.Implies(z3.Or(n1 != n2, k1 != k2), T.Invocation.get(T.fresh_inv(a, n1, k1), "invocation_id")
+                                                                != T.Invocation.get(T.fresh_inv(b, n2, k2), "invocation_id"))))
+        orch = eng.self_ref
+        rec0 = st.ghost.setdefault("$rec_at_first_creation", eng.heap_read(st, orch, "rec"))
+        kq = z3.Int(fresh_name("kq"))
+        cq = z3.Const(fresh_name("cq"), T.CallRec.sort())
+        st.assume(z3.ForAll([cq, kq], z3.Not(known(T, rec0.term, T.Invocation.get(T.fresh_inv(cq, z3.IntVal(nonce[0]), kq), "invocation_id")))))
+        bag0 = eng.heap_read(st, eng.heap_read(st, eng.heap_read(st, orch, "app"), "broker"), "queue")
+        st.assume(z3.ForAll([cq, kq], z3.Select(bag0.term, T.Invocation.get(T.fresh_inv(cq, z3.IntVal(nonce[0]), kq), "invocation_id")) == 0))
+        return [(OK, st, Val(inv, T.Invocation))]
+    reg.add(Contract(key=f"{DI}:DistributedInvocation.from_parent", handler=h_from_parent, assumed=True,
+                     note="creates an invocation view of the call with a fresh uuid4 id (not registered, not queued, distinct from all others)"))
+    reg.add(Contract(key=f"{DI}:ReusedInvocation.__init__", assumed=True,
+                     handler=lambda eng, st, args, kwargs: [(OK, st, args[0])], note="a ReusedInvocation is a view of the existing invocation (same id, same call)"))
+    reg.class_shapes[f"{DI}:ReusedInvocation"] = "__reused__"
+    reg.add(Contract(key="pynenc.exceptions:InvocationConcurrencyWithDifferentArgumentsError.from_call_mismatch", assumed=True,
+                     handler=lambda eng, st, recv, args, kwargs: [(OK, st, ExcVal("InvocationConcurrencyWithDifferentArgumentsError"))]))
+
+    # ---- register_new_invocations -------------------------------------------------------------------------------
+    def fresh_distinct(c, name="invocations"):
+        i = z3.Const(fresh_name("fi"), ID.sort())
+        S = world.id_set(T, c.arg(name))
+        return z3.ForAll([i], z3.Implies(z3.Select(S, i), z3.And(z3.Not(known(T, c.f(REC), i)), z3.Select(c.f(QUEUE), i) == 0)))
+
+    def newly_registered(c, seq_term, rec0, bag0, hist0):
+        """every listed invocation is REGISTERED, queued, stored, with exactly one history entry; nothing else changes"""
+        i = z3.Const(fresh_name("i"), ID.sort())
+        S = world.id_set(T, seq_term)
+        return z3.And(
+            z3.ForAll([i], z3.Implies(z3.Select(S, i), z3.And(
+                known(T, c.f(REC), i), status_of(T, c.f(REC), i) == T.S("REGISTERED"),
+                z3.Select(c.f(QUEUE), i) >= 1, z3.Select(c.f(STORED), i),
+                hist_get(c.f(HIST), i) == z3.Concat(hist_get(hist0, i), z3.Unit(rec_t.opt.val(z3.Select(c.f(REC), i))))))),
+            z3.ForAll([i], z3.Implies(z3.Not(z3.Select(S, i)), z3.And(z3.Select(c.f(REC), i) == z3.Select(rec0, i), z3.Select(c.f(QUEUE), i) == z3.Select(bag0, i),
+                                                                      z3.Select(c.f(HIST), i) == z3.Select(hist0, i)))),
+            z3.ForAll([i], z3.Implies(z3.Select(c.old(STORED), i), z3.Select(c.f(STORED), i))))
+    state_inv = [
+        ("C03:no-id-stranded", lambda c: Jall(T, c.f(REC), c.f(QUEUE))),
+        ("world-wellformed", lambda c: z3.And(owners_ok(T, c.f(REC)), bag_nonneg(c.f(QUEUE)), registered_are_stored(T, c.f(REC), c.f(STORED)),
+                                              queued_are_registered(T, c.f(REC), c.f(QUEUE)))),
+    ]
+    reg_fields = all_fields + [QUEUE, STORED, RETRIES]
+    C["register_new_invocations"] = Contract(
+        key=f"{BO}:BaseOrchestrator.register_new_invocations", shape="Orchestrator", params={"invocations": INVS},
+        requires=world_req + [("C03-at-entry", lambda c: Jall(T, c.f(REC), c.f(QUEUE))), ("ids-fresh-and-distinct", fresh_distinct)],
+        frame=reg_fields, loops={0: LoopSpec(modifies=[], inv=[])},
+        cases=[Case("registered", ensures=[
+            ("C03/C10:each-new-invocation-REGISTERED-queued-stored-one-history-entry-nothing-else-changes",
+             lambda c: newly_registered(c, c.arg("invocations"), c.old(REC), c.old(QUEUE), c.old(HIST))),
+        ] + state_inv)], properties=["C03", "C10", "C01"])
+
+    # ---- _route_new_call_invocation -------------------------------------------------------------------------------
+    def cc_on(call_term):
+        conf = T.TaskRec.get(T.CallRec.get(call_term, "task"), "conf")
+        return z3.Or(T.TaskConf.get(conf, "registration_concurrency") != CC("DISABLED"), T.TaskConf.get(conf, "running_concurrency") != CC("DISABLED"))
+
+    def one_new(c, inv_term, rec0, bag0, hist0, idx0):
+        i = z3.Const(fresh_name("i"), ID.sort())
+        nid = T.Invocation.get(inv_term, "invocation_id")
+        return z3.And(
+            z3.Not(known(T, rec0, nid)), known(T, c.f(REC), nid), status_of(T, c.f(REC), nid) == T.S("REGISTERED"),
+            z3.Select(c.f(QUEUE), nid) >= 1, z3.Select(c.f(STORED), nid),
+            z3.ForAll([i], z3.Implies(i != nid, z3.And(z3.Select(c.f(REC), i) == z3.Select(rec0, i), z3.Select(c.f(QUEUE), i) == z3.Select(bag0, i),
+                                                       z3.Select(c.f(HIST), i) == z3.Select(hist0, i), z3.Select(c.f(INDEXED), i) == z3.Select(idx0, i)))))
+    C["_route_new_call_invocation"] = Contract(
+        key=f"{BO}:BaseOrchestrator._route_new_call_invocation", shape="Orchestrator",
+        params={"call": T.CallRec, "runner_id": OSTR}, defaults={"runner_id": lambda eng, st: NONE}, result=T.Invocation,
+        requires=world_req + [("C03-at-entry", lambda c: Jall(T, c.f(REC), c.f(QUEUE)))],
+        frame=reg_fields + [INDEXED],
+        cases=[Case("new-invocation", ensures=[
+            ("is-an-invocation-of-the-call", lambda c: T.Invocation.get(c.result, "call") == c.arg("call")),
+            ("C07:exactly-one-new-REGISTERED-queued-invocation-nothing-else-changes",
+             lambda c: one_new(c, c.result, c.old(REC), c.old(QUEUE), c.old(HIST), c.old(INDEXED))),
+            ("C06:arguments-indexed-when-any-concurrency-control-is-on", lambda c: z3.Implies(
+                cc_on(c.arg("call")), z3.Select(c.f(INDEXED), T.Invocation.get(c.result, "invocation_id")))),
+        ] + state_inv)], properties=["C06", "C07", "C03"])
+
+    # ---- route_calls (batch) ------------------------------------------------------------------------------------------
+    def batch_indexed(c):
+        v = z3.Const(fresh_name("bv"), T.Invocation.sort())
+        el = ops.seq_elems(c.result, T.Invocation.sort())
+        return z3.ForAll([v], z3.Implies(z3.And(z3.Select(el, v), cc_on(T.Invocation.get(v, "call"))),
+                                         z3.Select(c.f(INDEXED), T.Invocation.get(v, "invocation_id"))))
+
+    def one_per_call(c):
+        v = z3.Const(fresh_name("ov"), T.Invocation.sort())
+        cl = z3.Const(fresh_name("oc"), T.CallRec.sort())
+        el = ops.seq_elems(c.result, T.Invocation.sort())
+        ec = ops.seq_elems(c.arg("calls"), T.CallRec.sort())
+        empty_fact = z3.Implies(z3.Length(c.arg("calls")) == 0, ec == SetT(T.CallRec).empty())   # a true fact about elems()
+        return z3.Implies(empty_fact, z3.And(z3.Length(c.result) == z3.Length(c.arg("calls")),
+                      z3.ForAll([v], z3.Implies(z3.Select(el, v), z3.Select(ec, T.Invocation.get(v, "call")))),
+                      z3.ForAll([cl], z3.Implies(z3.Select(ec, cl), z3.Exists([v], z3.And(z3.Select(el, v), T.Invocation.get(v, "call") == cl))))))
+    regc0 = lambda c: T.TaskConf.get(T.TaskRec.get(T.CallRec.get(c.arg("calls")[0], "task"), "conf"), "registration_concurrency")
+    # the classmethod is reached through the exception class (kind 'exc'): registered as a dropped-to-handler call
+    
+    def one_task(c):
+        cl = z3.Const(fresh_name("otc"), T.CallRec.sort())
+        ec = ops.seq_elems(c.arg("calls"), T.CallRec.sort())
+        return z3.And(z3.ForAll([cl], z3.Implies(z3.Select(ec, cl), T.CallRec.get(cl, "task") == T.CallRec.get(c.arg("calls")[0], "task"))),
+                      z3.Implies(z3.Length(c.arg("calls")) > 0, z3.Select(ec, c.arg("calls")[0])))
+    C["route_calls"] = Contract(
+        key=f"{BO}:BaseOrchestrator.route_calls", shape="Orchestrator", params={"calls": CALLS}, result=INVS,
+        requires=world_req + [("C03-at-entry", lambda c: Jall(T, c.f(REC), c.f(QUEUE))),
+                              ("batch-of-calls-of-one-task", one_task)],
+        frame=reg_fields + [INDEXED], loops={0: LoopSpec(modifies=["indexed"], inv=[
+            ("indexed-so-far", lambda c: z3.ForAll([z3.Const("lv", T.Invocation.sort())], z3.Implies(
+                z3.Select(c.x("seen_elems"), z3.Const("lv", T.Invocation.sort())),
+                z3.Select(c.f(INDEXED), T.Invocation.get(z3.Const("lv", T.Invocation.sort()), "invocation_id"))))),
+            ("index-only-grows-by-the-new-ids", lambda c: z3.ForAll([z3.Const("li", ID.sort())], z3.Implies(
+                z3.Not(z3.Select(world.id_set(T, c.v("invocations")), z3.Const("li", ID.sort()))),
+                z3.Select(c.f(INDEXED), z3.Const("li", ID.sort())) == z3.Select(c.old(INDEXED), z3.Const("li", ID.sort()))))),
+        ])},
+        cases=[
+            Case("refused", when=lambda c: z3.And(z3.Length(c.arg("calls")) > 0, regc0(c) != CC("DISABLED")), raises="TaskParallelProcessingError",
+                 ensures=unchanged(REC, QUEUE, HIST, INDEXED)),
+            Case("routed", when=lambda c: z3.Or(z3.Length(c.arg("calls")) == 0, regc0(c) == CC("DISABLED")), ensures=[
+                ("one-invocation-per-call", one_per_call),
+                ("C03/C10:each-new-invocation-REGISTERED-queued-stored-one-history-entry-nothing-else-changes",
+                 lambda c: newly_registered(c, c.result, c.old(REC), c.old(QUEUE), c.old(HIST))),
+                ("C06:arguments-indexed-on-the-batch-path-when-running-concurrency-is-on", batch_indexed),
+            ] + state_inv),
+        ], properties=["C06", "C03"])
+
+    # ---- route_call (registration concurrency) ---------------------------------------------------------------------------
+    def regc(c):
+        return T.TaskConf.get(T.TaskRec.get(T.CallRec.get(c.arg("call"), "task"), "conf"), "registration_concurrency")
+
+    def reg_match(c, j, rec):
+        key = T.keyproj(c.arg("call"), regc(c))
+        no_filter = z3.Or(regc(c) == CC("TASK"), OKEYS.is_none(key))
+        return z3.And(known(T, rec, j), world.task_of(T, j) == T.TaskRec.get(T.CallRec.get(c.arg("call"), "task"), "task_id"),
+                      status_of(T, rec, j) == T.S("REGISTERED"),
+                      z3.Or(no_filter, z3.And(z3.Select(c.old(INDEXED), j), T.key_match(j, OKEYS.val(key)))))
+
+    def some_match(c):
+        j = z3.Const(fresh_name("mj"), ID.sort())
+        return z3.Exists([j], reg_match(c, j, c.old(REC)))
+    raise_opt = lambda c: T.TaskConf.get(T.TaskRec.get(T.CallRec.get(c.arg("call"), "task"), "conf"), "on_diff_non_key_args_raise")
+    nothing = unchanged(REC, QUEUE, HIST, INDEXED, STORED, RETRIES)
+    C["route_call"] = Contract(
+        key=f"{BO}:BaseOrchestrator.route_call", shape="Orchestrator", params={"call": T.CallRec}, result=T.Invocation,
+        requires=world_req + [("C03-at-entry", lambda c: Jall(T, c.f(REC), c.f(QUEUE)))],
+        frame=reg_fields + [INDEXED],
+        cases=[
+            Case("different-non-key-arguments-rejected", when=lambda c: z3.And(regc(c) != CC("DISABLED"), some_match(c), raise_opt(c)),
+                 raises="InvocationConcurrencyWithDifferentArgumentsError", ensures=nothing),
+            Case("result", ensures=[
+                ("C07:disabled-or-no-REGISTERED-match=>exactly-one-new-invocation", lambda c: z3.Implies(
+                    z3.Or(regc(c) == CC("DISABLED"), z3.Not(some_match(c))),
+                    z3.And(T.Invocation.get(c.result, "call") == c.arg("call"),
+                           one_new(c, c.result, c.old(REC), c.old(QUEUE), c.old(HIST), c.old(INDEXED))))),
+                ("C07:REGISTERED-match=>returns-one-of-them-and-changes-nothing", lambda c: z3.Implies(
+                    z3.And(regc(c) != CC("DISABLED"), some_match(c)),
+                    z3.And(reg_match(c, T.Invocation.get(c.result, "invocation_id"), c.old(REC)),
+                           *[f(c) for _n, f in nothing]))),
+                ("C07:with-the-raise-option-a-reused-invocation-has-the-same-call-identity", lambda c: z3.Implies(
+                    z3.And(regc(c) != CC("DISABLED"), some_match(c), raise_opt(c)),
+                    T.CallRec.get(T.Invocation.get(c.result, "call"), "call_id") == T.CallRec.get(c.arg("call"), "call_id"))),
+            ] + state_inv),
+        ], properties=["C07"])
